@@ -159,8 +159,9 @@ def functions_encoded(crate, harness, tdir_suffix=""):
             m = json.load(open(f))
             vals = m.values() if isinstance(m, dict) else [x[1] if isinstance(x, list) else x for x in m]
             for v in vals:
-                if isinstance(v, str) and (v.startswith("specs::") or v.startswith("specs_derive::")) \
-                        and "hibitset" not in v and "{closure" not in v:
+                if isinstance(v, str) and ("specs::" in v or "ConvertSaveload" in v) \
+                        and "hibitset" not in v and "{closure" not in v and not v.startswith("std::") \
+                        and not v.startswith("core::") and not v.startswith("alloc::") and len(v) < 200:
                     fns.add(v)
         except Exception:
             pass
